@@ -57,11 +57,21 @@ def run(tier, seed):
         PID, LEVEL, tier, seed, THEMES,
         quick_num=14 if len(THEMES) > 1 else 30, thorough_num=250,
         assumptions=kc.COMMON_ASSUMPTIONS, rule=RULE, needed_events=NEEDED,
-        mc_cfgs=(['MC_Krill_q_chain.cfg', 'MC_Krill_q_life.cfg', 'MC_Krill_q_multi.cfg', 'MC_Krill_q_foreign.cfg'] if tier == "quick" else ['MC_Krill_q_chain.cfg', 'MC_Krill_q_life.cfg', 'MC_Krill_q_multi.cfg', 'MC_Krill_q_foreign.cfg', 'MC_Krill_chain.cfg', 'MC_Krill_life.cfg']),
+        mc_cfgs=(['MC_Krill_q_chain.cfg', 'MC_Krill_q_life.cfg',
+                  'MC_Krill_q_multi.cfg', 'MC_Krill_q_foreign.cfg',
+                  # "converges" as a temporal property
+                  'MC_Krill_live_q_chain.cfg', 'MC_Krill_live_sanity.cfg']
+                 if tier == "quick" else
+                 ['MC_Krill_q_chain.cfg', 'MC_Krill_q_life.cfg',
+                  'MC_Krill_q_multi.cfg', 'MC_Krill_q_foreign.cfg',
+                  'MC_Krill_chain.cfg', 'MC_Krill_life.cfg',
+                  'MC_Krill_live_q_chain.cfg', 'MC_Krill_live_sanity.cfg',
+                  'MC_Krill_live_chain.cfg']),
         directed=(DIRECTED + kc.MULTI_DIRECTED[:1]
                   + kc.clause("chain-shrink-after-suspension",
                               "shrink-to-nothing", "foreign-limit-shrink",
-                              "foreign-limit-refused")),
+                              "foreign-limit-refused",
+                              "shrink-regrow-before-child-sync")),
         theme_nums={"multi": (6, 80), "mix": (4, 60), "foreign": (6, 80),
                     "deep": (4, 60)})
 
